@@ -13,6 +13,8 @@
 import OtterVerif.Conc.Drain
 import OtterVerif.Conc.DrainSkeleton
 import OtterVerif.Gen.Skeleton
+import OtterVerif.Gen.CacheMaint
+import OtterVerif.Pin.CacheMaint
 
 namespace OtterVerif.Props.C14
 open OtterVerif.Conc.Drain
@@ -77,5 +79,36 @@ theorem skeleton_cache_getNode : Gen.Skeleton.cache_getNode = Conc.DrainSkeleton
 def i0 : St := { W0 := 2, S0 := 1, PC0 := 1, IA0 := 1 }
 example : Initial i0 := by unfold Initial i0; decide
 example : Reach i0 { i0 with W0 := 1, W1 := 1, wb := 1 } := Reach.step Reach.init (Step.w_push i0 (by decide))
+
+/-! ### The status encoding and the tests on it, regenerated from cache_impl.go
+
+Conc.Drain writes the drain status as 0 idle, 1 required, 2 processingToIdle, 3 processingToRequired and guards its steps by
+`ds = i`, `ds ≥ 2`, `ds ≠ 1`.  These are the code's constants and comparisons (which branch does what is the skeleton's part). -/
+
+/-- scheduleAfterWrite and shouldDrainBuffers dispatch on the four values in this order; the writer's only conditional return
+    is on the SUCCESS of its processingToIdle → processingToRequired CAS (on failure it re-reads the status) -/
+theorem c14_gen_status_dispatch (ds : BitVec 32) (cas delayable : Bool) :
+    Gen.CacheMaint.cache_scheduleAfterWrite_s0 ds = (ds == 0#32) ∧ Gen.CacheMaint.cache_scheduleAfterWrite_s1 ds = (ds == 1#32) ∧
+    Gen.CacheMaint.cache_scheduleAfterWrite_s2 ds = (ds == 2#32) ∧ Gen.CacheMaint.cache_scheduleAfterWrite_s3 ds = (ds == 3#32) ∧
+    Gen.CacheMaint.cache_scheduleAfterWrite_c0 cas = cas ∧
+    Gen.CacheMaint.cache_shouldDrainBuffers_s0 ds = (ds == 0#32) ∧ Gen.CacheMaint.cache_shouldDrainBuffers_s1 ds = (ds == 1#32) ∧
+    Gen.CacheMaint.cache_shouldDrainBuffers_s2 ds = (ds == 2#32) ∧ Gen.CacheMaint.cache_shouldDrainBuffers_s3 ds = (ds == 3#32) ∧
+    Gen.CacheMaint.cache_shouldDrainBuffers_r0 delayable = !delayable ∧ Gen.CacheMaint.cache_shouldDrainBuffers_r1 = true ∧
+    Gen.CacheMaint.cache_shouldDrainBuffers_r2 = false :=
+  ⟨rfl, rfl, rfl, rfl, rfl, rfl, rfl, rfl, rfl, rfl, rfl, rfl⟩
+
+/-- scheduleDrainBuffers backs off iff a maintenance is in progress (status ≥ 2), at both of its looks; the maintenance asks for
+    a successor (stores `required`) iff its status is no longer processingToIdle or its CAS to idle fails; the re-schedule after
+    unlocking and GetMaximum's maintenance happen only for status `required`; one run drains at most maxWriteBufferSize + 1 events -/
+theorem c14_gen_status_tests (ds : BitVec 32) (cas : Bool) (i mx : BitVec 32) :
+    Gen.CacheMaint.cache_scheduleDrainBuffers_c0 ds = decide (2 ≤ ds.toNat) ∧
+    Gen.CacheMaint.cache_scheduleDrainBuffers_c2 ds = decide (2 ≤ ds.toNat) ∧
+    Gen.CacheMaint.cache_maintenance_c0 cas ds = ((ds != 2#32) || !cas) ∧
+    Gen.CacheMaint.cache_rescheduleCleanUpIfIncomplete_c0 ds = (ds != 1#32) ∧
+    Gen.CacheMaint.cache_GetMaximum_c1 ds = (ds == 1#32) ∧
+    Gen.CacheMaint.cache_drainWriteBuffer_c1 i mx = decide (i.toNat ≤ mx.toNat) := by
+  refine ⟨?_, ?_, rfl, rfl, rfl, ?_⟩ <;> simp [Gen.CacheMaint.cache_scheduleDrainBuffers_c0, Gen.CacheMaint.cache_scheduleDrainBuffers_c2,
+    Gen.CacheMaint.cache_drainWriteBuffer_c1, BitVec.ule]
+
 
 end OtterVerif.Props.C14
